@@ -759,6 +759,11 @@ ssize_t ZCK_PUBLIC_API zck_get_chunk_data(zckChunk *idx, char *dst,
         return -1;
     if(!seek_data(zck, zck_get_chunk_start(idx), SEEK_SET))
         return -1;
+    /* Start from a clean reader state whatever was requested before */
+    zck->comp.data_loc = 0;
+    zck->comp.data_eof = false;
+    if(!hash_init(zck, &(zck->check_chunk_hash), &(zck->chunk_hash_type)))
+        return -1;
     zck->comp.data_idx = idx;
     return comp_read(zck, dst, dst_size, 1);
 }
